@@ -23,7 +23,7 @@ CHECKS = {
     "C03": dict(
         engine="edits", category="exploration", design_ref="DESIGN.md §4.1",
         technique="deterministic simulation: seeded edit/query/rejection/poison histories on one Model, refinement against a model freshly rebuilt from its own content after every op; ddmin-minimised replay files",
-        text="Seeded search over histories of public Model edits (all single and batch mutators, ~25% deliberately rejected, poisoned functions that kill a query while the memo is being built, dangling/cyclic content) interleaved with queries; after every op the edited model must refine a model freshly rebuilt from its own content (same op outcome, same content, same ids, same query answers), a refused edit must change nothing, names must stay disjoint and re-usable. Sampling, not proof; ~2M histories/hour. Added later: a quarter of the runs hand the model EPHEMERAL function objects (a new function object per use that only the model refers to), so that anything remembered by id() across edits goes stale; caller-kept Parameter/Variable containers; the caller scribbles on dicts that queries return.",
+        text="Seeded search over histories of public Model edits (all single and batch mutators, ~25% deliberately rejected, poisoned functions that kill a query while the memo is being built, dangling/cyclic content) interleaved with queries; after every op the edited model must refine a model freshly rebuilt from its own content (same op outcome, same content, same ids, same query answers), a refused edit must change nothing, names must stay disjoint and re-usable. Sampling, not proof; ~2M histories/hour. Added later: a quarter of the runs hand the model EPHEMERAL function objects (a new function object per use that only the model refers to), so that anything remembered by id() across edits goes stale; caller-kept Parameter/Variable containers; the caller scribbles on dicts that queries return. One hand-written postcondition on top of the refinement: an accepted remove leaves none of its names behind, an accepted add all of them in place (a refinement against an equally built twin cannot see an accepted edit that did nothing); one-shot iterables for the remover declared Iterable[str].",
         note="Trusted: rebuild through public add_* from get_raw_* copies is 'a freshly built model with the same content'; Model._data read directly (no public getter). Cannot see wrong evaluation that a fresh model shares (C01/C02/C13).",
     ),
     "C04": dict(
@@ -35,7 +35,7 @@ CHECKS = {
     "C09": dict(
         engine="scans", category="exploration", design_ref="DESIGN.md §4.3",
         technique="deterministic simulation of schedules: each seeded scan input is executed sequentially (shared model) and under a simulated process pool (pickled payloads, seeded worker assignment / completion order, W in 1..16, optional worker death), lazily evaluated views read in a seeded order, content-keyed failing rows; every row compared with an independent simulation of a fresh model",
-        text="For scan.steady_state/time_course/protocol/protocol_time_course and mc.* (incl. mc.scan_steady_state) over models with a derived variable, a readout and a parameter defined by an initial assignment over the initial values: each row's variables and fluxes must equal a separate simulation of a fresh model with that row's values, sit at the row's position under the row's index label, be identical across all schedules (sequential, pool with any worker count and completion order, rows <,=,> workers) and read orders; a failing row (poisoned integrator) must read as NaN state on the grid of a successful row without disturbing its neighbours. Added later: scans with a cache an earlier scan partly filled, caller-kept objects passed to several scans, and the assignment-defined parameter itself as a scanned column.",
+        text="For scan.steady_state/time_course/protocol/protocol_time_course and mc.* (incl. mc.scan_steady_state) over models with a derived variable, a readout and a parameter defined by an initial assignment over the initial values: each row's variables and fluxes must equal a separate simulation of a fresh model with that row's values, sit at the row's position under the row's index label, be identical across all schedules (sequential, pool with any worker count and completion order, rows <,=,> workers) and read orders; a failing row (poisoned integrator) must read as NaN state on the grid of a successful row without disturbing its neighbours. Added later: scans with a cache an earlier scan partly filled, caller-kept objects passed to several scans, and the assignment-defined parameter itself as a scanned column. A model whose initial value is computed from a scanned parameter; the caller's one model object scanned again by the following schedules; the caller editing its model between the scan and the first read of the lazily evaluated views.",
         note="Oracle = MxlPy's own Simulator on a fresh factory model nobody else touches. In-process SimPool shares module state with the parent (stub-fidelity self-test compares it with real pebble). Nothing is demanded of flux values of a NaN placeholder (state-independent rates legitimately evaluate).",
     ),
     "C10": dict(
@@ -65,19 +65,19 @@ CHECKS = {
     "C18": dict(
         engine="mca", category="exploration", design_ref="DESIGN.md §4.5",
         technique="deterministic simulation of schedules: MCA routines run sequentially (shared model) and under a simulated pool (W in 1..16, seeded completion order), with content-keyed steady-state failures; before/after snapshots of the caller's model; closed-form sensitivities of power-law chains as value oracle",
-        text="For seeded power-law chains: variable/parameter elasticities (scaled/unscaled, default/given state, to_scan subsets), mca.response_coefficients under sequential and pool schedules (with and without variables=), mc.response_coefficients. Decided: the caller's model content, parameter values and initial values are identical before and after every routine under every schedule; coefficient tables are identical across schedules; inside those runs the values equal the kinetic orders resp. the closed-form steady-state sensitivities.",
+        text="For seeded power-law chains: variable/parameter elasticities (scaled/unscaled, default/given state, to_scan subsets), mca.response_coefficients under sequential and pool schedules (with and without variables=), mc.response_coefficients. Decided: the caller's model content, parameter values and initial values are identical before and after every routine under every schedule; coefficient tables are identical across schedules; inside those runs the values equal the kinetic orders resp. the closed-form steady-state sensitivities. Added later: elasticity routines interrupted half-way, elasticities over a model with an assignment-defined parameter (giving up is not charged, a changed model is), the cycle analysis repeated on a model whose own initial values were changed.",
         note="Value oracle tolerance: 1e-6 for elasticities, 1e-5 (ExactLinear) / 3e-2 plus difference-quotient noise (real Scipy) for response coefficients. In-process SimPool.",
     ),
     "C19": dict(
         engine="crash", category="fault_enumeration", design_ref="DESIGN.md §4.6",
         technique="deterministic simulation with crash injection: forked process incarnations killed at every traced line of mxlpy/parallel.py and at byte offsets of every result file (torn writes), reruns compared with a cache-free reference; lockstep pool (one parked thread per task, seeded step choice) for workers in flight together, per-task timeouts and whole-process death at scheduler steps",
-        text="For seeded workloads (parallelise with a logging function, scan.time_course, scan.steady_state, scan.protocol, mc.time_course; int/str/tuple/near-identical keys; results 0..70 kB; sequential or simulated pool) the histories 'no cache -> run killed at p [-> killed again] -> rerun -> rerun' are executed for EVERY line-level kill point inside mxlpy/parallel.py (exhaustive per workload), sampled kill points in all mxlpy frames, and byte-granular torn writes of every result file (whole process or single worker dies). Rerun must complete and equal the cache-free reference for every key; a further run must recompute nothing; an uninterrupted cached run must equal the reference. Also: several cached runs inside one process (caller mutates returned results, wipes and reuses the directory, an in-process interruption followed by a rerun under the same pid); and pool workloads under the lockstep back-end, where several workers are mid-write at once while the parent handles a task timeout, and where the process dies at a scheduler step with several temporaries on disk - the cached run must complete exactly when the uncached run under the same plan does, return the same keys and values, and the reruns must complete, agree and recompute nothing.",
+        text="For seeded workloads (parallelise with a logging function, scan.time_course, scan.steady_state, scan.protocol, mc.time_course; int/str/tuple/near-identical keys; results 0..70 kB; sequential or simulated pool) the histories 'no cache -> run killed at p [-> killed again] -> rerun -> rerun' are executed for EVERY line-level kill point inside mxlpy/parallel.py (exhaustive per workload), sampled kill points in all mxlpy frames, and byte-granular torn writes of every result file (whole process or single worker dies). Rerun must complete and equal the cache-free reference for every key; a further run must recompute nothing; an uninterrupted cached run must equal the reference. Also: several cached runs inside one process (caller mutates returned results, wipes and reuses the directory, an in-process interruption followed by a rerun under the same pid); and pool workloads under the lockstep back-end, where several workers are mid-write at once while the parent handles a task timeout, and where the process dies at a scheduler step with several temporaries on disk - the cached run must complete exactly when the uncached run under the same plan does, return the same keys and values, and the reruns must complete, agree and recompute nothing. Further: a parent-only death in a lockstep run (the in-flight workers live on as orphans with their own process ids and finish their task while the rerun is already writing into the same directory), and workloads whose cache directory lies on another (simulated) file system than the temp directory, with kill points inside a copy that replaces a rename.",
         note="A user-supplied cache (own naming, extension-sensitive writer, own reader) takes part in the transparency / no-recompute / lockstep checks only - the atomicity of a custom writer is its own business. Process-kill semantics only (what reached the OS survives; no power-loss reordering). C-level writes inside pickle.dump are interrupted only through the path seam. Lockstep workers are threads of one process (one pid): pid-dependent naming is exercised through the same-pid rerun history instead.",
     ),
     "C20": dict(
         engine="fit", category="exploration", design_ref="DESIGN.md §4.8",
         technique="deterministic simulation through the minimiser seam: a scripted candidate sequence (start point, true values, repeats, candidates whose integration is made to fail) is evaluated on the one shared model copy the routine keeps mutating; each evaluation compared with the shipped loss recomputed on a fresh model; honesty runs with the real scipy minimiser; before/after snapshots of the caller's model",
-        text="REDUCED SCOPE (the history-shaped clauses only): every residual evaluation, whatever was evaluated before it on the shared model, equals the shipped loss between the data and the prediction of a fresh model at exactly that candidate (standard scaling with the data's mean/std; parameters and initial values routed by name); a failed integration gives inf; with the real LocalScipyMinimizer the returned loss is <= the loss at the start point and equals the loss recomputed at the returned values; with copying enabled the caller's model is unchanged. Added later: two fits in a row sharing one minimiser / settings list / p0; ragged protocols; transient faults in a later protocol step of one evaluation; joint fits whose earlier pairs bring their own loss / start state; a worker death in one evaluation of a joint fit (giving the fit up is accepted, a residual that misses a pair is not).",
+        text="REDUCED SCOPE (the history-shaped clauses only): every residual evaluation, whatever was evaluated before it on the shared model, equals the shipped loss between the data and the prediction of a fresh model at exactly that candidate (standard scaling with the data's mean/std; parameters and initial values routed by name); a failed integration gives inf; with the real LocalScipyMinimizer the returned loss is <= the loss at the start point and equals the loss recomputed at the returned values; with copying enabled the caller's model is unchanged. Added later: two fits in a row sharing one minimiser / settings list / p0; ragged protocols; transient faults in a later protocol step of one evaluation; joint fits whose earlier pairs bring their own loss / start state; a worker death in one evaluation of a joint fit (giving the fit up is accepted, a residual that misses a pair is not). Honesty runs also with user-chosen scipy methods (BFGS, CG, Nelder-Mead) and bounds that exclude the generating values.",
         note="NOT decided: 'every shipped loss is smallest at a perfect prediction and does not reward size' - algebraic laws of seven pure functions with no schedule, fault or history in them. A real optimiser raising (values the solver refuses) is counted, not charged.",
     ),
 }
